@@ -83,6 +83,8 @@ def units(ctx):
 
 
 def run(ctx):
+    from ..frame import check_frame_attrs
+    check_frame_attrs(ctx, 'C04', 'R3')
     P = ctx.prog
     us = units(ctx)
     ctx.floor('wait/terminate/is_alive implementation bodies', len(us), 14)
